@@ -262,6 +262,8 @@ func runC17(b *mon.B) {
 	// ---------------- pacing / idle scenarios ----------------
 	pacing := []string{"silent", "partial-header-then-silence", "partial-body-then-silence", "byte-just-before-each-deadline", "periodic-10s-gaps", "packet-then-silence", "slow-second-packet",
 		"open-session-then-silence", "open-session-then-partial-packet", "two-open-sessions-then-silence",
+		"single-connect-open-session-then-silence", "single-connect-packet-then-silence", "packet-and-partial-next-in-one-segment", "open-session-and-partial-next-in-one-segment",
+		"provider-without-secret", "provider-without-handler",
 		"proxy:silent", "proxy:partial-line-then-silence", "proxy:line-then-silence", "proxy:line-and-packet-then-silence"}
 	for k := 0; k < b.N(40, 900); k++ {
 		caseNo++
@@ -280,15 +282,26 @@ func runC17(b *mon.B) {
 		if strings.HasPrefix(pat, "proxy:") {
 			sopts = append(sopts, tq.SetUseProxy(true))
 		}
-		srv := kit.Start(world, tp, tap.NewLogger(false), &tap.Static{Secret: secret, Handler: tp.Wrap("initial", h)}, sopts...)
+		var provider tq.SecretProvider = &tap.Static{Secret: secret, Handler: tp.Wrap("initial", h)}
+		switch pat {
+		case "provider-without-secret":
+			provider = &tap.Static{Secret: nil, Handler: tp.Wrap("initial", h)}
+		case "provider-without-handler":
+			provider = &tap.Static{Secret: secret, Handler: nil}
+		}
+		srv := kit.Start(world, tp, tap.NewLogger(false), provider, sopts...)
 		c := srv.L.Dial(simnet.RemoteFor(k + 1))
 		typ := 1 + r.Intn(3)
+		hflags := 0
+		if strings.HasPrefix(pat, "single-connect") {
+			hflags = 4
+		}
 		mk := func(seq int, sid uint32) []byte {
-			return pktSpec{H: rfc8907.Header{Major: 0xc, Minor: 0, Type: typ, Seq: seq, Session: sid}, Clear: markedBody(r, typ, 'x')}.wire(secret)
+			return pktSpec{H: rfc8907.Header{Major: 0xc, Minor: 0, Type: typ, Seq: seq, Flags: hflags, Session: sid}, Clear: markedBody(r, typ, 'x')}.wire(secret)
 		}
 		// a packet whose reply registers a continuation: the session stays open
 		mkOpen := func(seq int, sid uint32) []byte {
-			return pktSpec{H: rfc8907.Header{Major: 0xc, Minor: 0, Type: typ, Seq: seq, Session: sid}, Clear: markedBody(r, typ, 'C')}.wire(secret)
+			return pktSpec{H: rfc8907.Header{Major: 0xc, Minor: 0, Type: typ, Seq: seq, Flags: hflags, Session: sid}, Clear: markedBody(r, typ, 'C')}.wire(secret)
 		}
 		expectHandlers := 0
 		expectOpen := false
@@ -327,6 +340,29 @@ func runC17(b *mon.B) {
 			}
 			c.Stall()
 			expectHandlers++
+		case "single-connect-open-session-then-silence":
+			c.Feed(mkOpen(1, 5))
+			c.Stall()
+			expectHandlers = 1
+		case "single-connect-packet-then-silence":
+			c.Feed(mk(1, 5))
+			c.Stall()
+			expectHandlers = 1
+		case "packet-and-partial-next-in-one-segment", "open-session-and-partial-next-in-one-segment":
+			// one segment: a complete packet (it gets its reply) and the first bytes of another one
+			// that is never completed
+			first := mk(1, 5)
+			if pat[0] == 'o' {
+				first = mkOpen(1, 5)
+			}
+			next := mk(1, 6)
+			c.Feed(append(append([]byte{}, first...), next[:1+r.Intn(len(next)-1)]...))
+			c.Stall()
+			expectHandlers = 1
+		case "provider-without-secret", "provider-without-handler":
+			// the secret provider answers without an error but with nothing to serve the client with
+			c.Feed(mk(1, 5))
+			c.Stall()
 		case "open-session-then-partial-packet":
 			c.Feed(mkOpen(1, 5))
 			w := mk(3, 5)
@@ -357,6 +393,23 @@ func runC17(b *mon.B) {
 			c.FeedAfter(16*time.Second, mk(1, 6))
 			c.Stall()
 			expectHandlers = 1
+		}
+		if strings.HasPrefix(pat, "provider-") {
+			// nothing to wait for on the connection (a server that forgets to close it would cost a
+			// watchdog): wait until it was accepted, stop the server, and judge the states then -
+			// Serve has returned, so the connection must be closed and no handler may have run
+			waitUntil(20*time.Second, c.Accepted)
+			if err := srv.Stop(); err != nil {
+				b.Inconclusive("pacing %s: Serve did not return", pat)
+				continue
+			}
+			if !c.Closed() {
+				b.Violate(caseNo, "C17/connection-open-at-serve-return/"+pat, fmt.Sprintf("pattern %s: the provider had nothing to serve the client with; Serve has returned and the accepted connection was never closed", pat), map[string]interface{}{"pattern": pat})
+			}
+			if tp.Count() != 0 {
+				b.Violate(caseNo, "C17/handler-for-incomplete-packet/"+pat, fmt.Sprintf("pattern %s: %d handler calls for a client the provider does not know", pat, tp.Count()), nil)
+			}
+			continue
 		}
 		st, err := c.WaitQuiescent()
 		if err != nil {
